@@ -181,7 +181,9 @@ theorem read_bytes (r r' : Reader) (w : Nat) (bs : List UInt8) (h : r.read w = (
   split at h
   · simp only [Prod.mk.injEq, RdRes.bytes.injEq] at h
     obtain ⟨rfl, rfl⟩ := h
-    exact ⟨w, Nat.le_refl _, id, rfl, rfl⟩
+    refine ⟨if r.tail = 0 then w else min w r.tail, ?_, ?_, rfl, rfl⟩
+    · split <;> omega
+    · intro hw; split <;> omega
   · simp at h
   · rename_i m s hs
     simp only [Prod.mk.injEq, RdRes.bytes.injEq] at h
@@ -477,7 +479,7 @@ theorem readAll_rfc (sizes : List Nat) : ∀ (d : Dec) (rest acc : List UInt8), 
     · rw [if_neg (fun h => hc (hiff.mp h)), if_neg hc]
       exact ih d' _ _ h2
 
-theorem DInv_new (p : List UInt8) (sched : List Nat) : DInv (Dec.new ⟨rfcEncode p, sched⟩) p :=
+theorem DInv_new (p : List UInt8) (sched : List Nat) (tail : Nat) : DInv (Dec.new ⟨rfcEncode p, sched, tail⟩) p :=
   ⟨Nat.le_refl _, p, rfl, by simp [Dec.new]⟩
 
 /-- reading a slice: with a non-empty buffer offered after everything was delivered, the caller has all bytes
